@@ -183,6 +183,13 @@ def build_inputs(tier):
     for rest in ["a\n b", "a\xa0b", "a  # c\n b", "a\u2003b  c", "x \\\n y"]:
         cases.append(("proc", (f"$(echo! {rest})", "echo", rest, "subproc_captured", "", "\n")))
         cases.append(("proc", (f"![echo! {rest}]", "echo", rest, "subproc_captured_hiddenobject", "r = ", "\n")))
+    # a subprocess macro inside an injected subprocess `@$(..)`, followed by further words of the outer command: the macro ends
+    # with ITS bracket, the outer words are ordinary words again
+    for outer_o, outer_c in [("$(", ")"), ("![", "]"), ("!(", ")"), ("$[", "]")]:
+        for inner, cmd, rest in [("which! ls  -l", "which", "ls  -l"), ("echo! a  b   c", "echo", "a  b   c"), ("bash! -c 'x  y'", "bash", "-c 'x  y'")]:
+            for tail in [" a b", " a  b", "", " x"]:
+                cases.append(("proc", (f"{outer_o}echo @$({inner}){tail}{outer_c}", cmd, rest, "subproc_captured_inject", "", "\n")))
+                cases.append(("proc", (f"{outer_o}echo @$({inner}){tail}{outer_c}", cmd, rest, "subproc_captured_inject", "r = ", "\nz = $(ls  -l)\n")))
     for _ in range(500 * N):
         s, ctx, body = xonshgen.gen_with_macro(r)
         cases.append(("with", (s, ctx, body, r.choice(AFTER), r.choice(BEFORE))))
